@@ -8,11 +8,13 @@ import (
 	"errors"
 	"fmt"
 	"io"
+	"os"
 	"reflect"
 	"runtime"
 	"runtime/metrics"
 	"strings"
 	"syscall"
+	"time"
 
 	"github.com/gregoryv/mq"
 )
@@ -252,6 +254,8 @@ type RecordingWriter struct {
 	// are looked at (a tee or logging writer that itself encodes packets).
 	Inner func()
 	depth int
+	// Failed is set once Err has been returned.
+	Failed bool
 }
 
 func NewWriter() *RecordingWriter { return &RecordingWriter{FailAt: -1} }
@@ -278,12 +282,14 @@ func (w *RecordingWriter) Write(p []byte) (int, error) {
 		if w.ErrWhenFull && w.Accepted == w.FailAt {
 			// everything offered was accepted, and yet the write failed
 			// (a tee whose mirror failed, a flush error, a deadline)
+			w.Failed = true
 			return len(p), w.Err
 		}
 		return len(p), nil
 	}
 	w.Buf = append(w.Buf, p[:room]...)
 	w.Accepted += room
+	w.Failed = true
 	return room, w.Err
 }
 
@@ -406,3 +412,76 @@ func LiveHeap() int64 {
 	metrics.Read(s)
 	return int64(s[0].Value.Uint64())
 }
+
+// ---------------------------------------------------------------- deadline-capable connection on a virtual clock
+
+// DeadlineConn is an in-memory connection that has the deadline methods of a
+// net.Conn and keeps its own virtual clock. A deadline the library arms is
+// translated into "so long from now" at the moment it is set; Idle moves the
+// virtual clock forward (the peer keeps quiet between two frames); a Read
+// issued when the virtual clock is past an armed deadline fails with
+// os.ErrDeadlineExceeded, as a real connection would. No wall-clock wait is
+// involved, so verdicts do not depend on machine load.
+type DeadlineConn struct {
+	Data  []byte
+	Chunk int // bytes per Read at most (0: as many as asked for)
+	pos   int
+	now   time.Duration // virtual time since the connection was opened
+	armed bool
+	at    time.Duration // virtual time at which the armed deadline expires
+
+	SetCalls   int // deadline calls made by the code under test
+	ArmCalls   int // ... with a non-zero time
+	TimedOut   int // Reads failed with a deadline error
+	LeftArmed  int // Idle calls that found a deadline armed
+	ReadsCount int
+}
+
+func NewDeadlineConn(data []byte, chunk int) *DeadlineConn {
+	return &DeadlineConn{Data: data, Chunk: chunk}
+}
+
+func (d *DeadlineConn) set(t time.Time) error {
+	d.SetCalls++
+	if t.IsZero() {
+		d.armed = false
+		return nil
+	}
+	d.ArmCalls++
+	d.armed = true
+	d.at = d.now + time.Until(t)
+	return nil
+}
+
+func (d *DeadlineConn) SetReadDeadline(t time.Time) error { return d.set(t) }
+func (d *DeadlineConn) SetDeadline(t time.Time) error     { return d.set(t) }
+func (d *DeadlineConn) SetWriteDeadline(time.Time) error  { d.SetCalls++; return nil }
+
+// Idle lets virtual time pass while nothing is read (the peer is quiet).
+func (d *DeadlineConn) Idle(dur time.Duration) {
+	if d.armed {
+		d.LeftArmed++
+	}
+	d.now += dur
+}
+
+func (d *DeadlineConn) Read(p []byte) (int, error) {
+	d.ReadsCount++
+	if d.armed && d.now > d.at {
+		d.TimedOut++
+		return 0, os.ErrDeadlineExceeded
+	}
+	if d.pos >= len(d.Data) {
+		return 0, io.EOF
+	}
+	n := len(p)
+	if d.Chunk > 0 && n > d.Chunk {
+		n = d.Chunk
+	}
+	n = copy(p[:n], d.Data[d.pos:])
+	d.pos += n
+	return n, nil
+}
+
+// Consumed is the number of stream bytes handed out so far.
+func (d *DeadlineConn) Consumed() int { return d.pos }
